@@ -47,7 +47,7 @@ theorem sinv_step (T : Int) (st : St) (op : Op) (hi : SInv T st) (hT : T ≤ op.
         simp only [newDt, Op.now] at hw ⊢
         omega
     | result s te now => exact hop
-    | pump now => trivial
+    | pump now f => trivial
     | remove id u now => trivial
     | setPaused b now => trivial
   have hdts : AllC (IStart op.now) (step st op).1.dts := by
@@ -64,7 +64,7 @@ theorem sinv_step (T : Int) (st : St) (op : Op) (hi : SInv T st) (hT : T ≤ op.
     have hop' : 0 < te ∧ te ≤ now := hop
     refine ⟨?_, ?_, hdts⟩ <;>
       (simp only [step, resultOp]; split <;> simp only [Op.now] at hT ⊢ <;> (try split) <;> omega)
-  | pump now =>
+  | pump now f =>
     refine ⟨?_, ?_, hdts⟩ <;> (simp only [step, pumpOp]; split <;> simp only [Op.now] at hT ⊢ <;> omega)
   | remove id u now =>
     refine ⟨?_, ?_, hdts⟩ <;>
@@ -155,7 +155,7 @@ theorem fireCleanup_id (now : Int) (d : Dt) : (fireCleanup now d).id = d.id := b
   · split <;> rfl
   · rfl
 
-theorem ids_pump (st : St) (now : Int) : idsOf (pumpOp st now).dts = idsOf st.dts := by
+theorem ids_pump (st : St) (now : Int) (f : Bool) : idsOf (pumpOp st now f).dts = idsOf st.dts := by
   unfold pumpOp
   simp only
   split
@@ -221,7 +221,7 @@ theorem ids_step (st : St) (op : Op) :
       have h' : st.dts.any (fun d => d.id == p.id) = false := by simpa using h
       exact ⟨p, now, rfl, h', by simp [h']⟩
   | result s te now => left; exact ids_result st s te now
-  | pump now => left; exact ids_pump st now
+  | pump now f => left; exact ids_pump st now f
   | remove id u now => left; exact ids_remove st id u now
   | setPaused b now => left; exact ids_setq st b
 
@@ -393,7 +393,7 @@ theorem nodup_preModel (st : St) (op : Op) (h : (idsOf st.dts).Nodup) : (idsOf (
       intro hab; subst hab
       exact not_mem_ids_of_any hany' ha
   | result s te now => exact h
-  | pump now => exact h
+  | pump now f => exact h
   | remove id u now => exact h
   | setPaused b now => exact h
 
@@ -406,7 +406,7 @@ theorem ids_preModel (st : St) (op : Op) : idsOf (step st op).1.dts = idsOf (pre
     · rfl
     · simp [idsOf, newDt]
   | result s te now => exact ids_result st s te now
-  | pump now => exact ids_pump st now
+  | pump now f => exact ids_pump st now f
   | remove id u now => exact ids_remove st id u now
   | setPaused b now => exact ids_setq st b
 
@@ -427,7 +427,7 @@ theorem pw_step {R : Dt → Dt → Prop} (st : St) (op : Op)
       have hany' : st.dts.any (fun d => d.id == p.id) = false := by simpa using hany
       exact both_add_tail sr.toAddRel st p hany' (allc_trivial _) (opT_trivial st (.add p now))
   | result s te now => exact both_result sr.toAddRel.toTrigRel st s te trivial (allc_trivial _)
-  | pump now => exact both_pump sr st (allc_trivial _)
+  | pump now f => exact both_pump sr st f (allc_trivial _)
   | remove id u now => exact both_remove sr st id u (allc_trivial _)
   | setPaused b now => exact both_setq st b (fun d _ => hq b d) (allc_trivial _)
 
@@ -534,7 +534,7 @@ def V (sd : SDt) (d : Dt) : Prop :=
 def RelS (sp : SpecSt) (st : St) : Prop :=
   sp.kind = st.kind ∧ sp.checked = st.lastExec.isSome ∧ (sp.checked = true → sp.state = st.state) ∧
   (sp.checked = false → st.state = 3) ∧ sp.since = st.lastStateChange ∧
-  (sp.startNext = st.startNext ∧ sp.paused = st.paused) ∧ Pw V sp.dts st.dts
+  sp.paused = st.paused ∧ Pw V sp.dts st.dts
 
 theorem findDt_none_of_not_mem {l : List Dt} {i : Nat} (h : i ∉ idsOf l) : findDt l i = none := by
   unfold findDt
@@ -666,7 +666,7 @@ theorem predOf_cnt (st : St) (op : Op) (hnd : (idsOf st.dts).Nodup) (ev : Nat) {
         rw [hnone]
         simp [cnt, newDt]
   | result s te now => exact hin hd
-  | pump now => exact hin hd
+  | pump now f => exact hin hd
   | remove id u now => exact hin hd
   | setPaused b now => exact hin hd
 
@@ -738,7 +738,7 @@ theorem pw_pre (sp : SpecSt) (st : St) (op : Op) (hp : Pw V sp.dts st.dts) (hnd 
       simp only [newSDt, newDt]
       rw [hpa]
   | result s te now => exact hp
-  | pump now => exact hp
+  | pump now f => exact hp
   | remove id u now => exact hp
   | setPaused b now => exact hp
 
@@ -746,7 +746,7 @@ theorem pw_pre (sp : SpecSt) (st : St) (op : Op) (hp : Pw V sp.dts st.dts) (hnd 
     observation agrees with the new model state. -/
 theorem relS_step (sp : SpecSt) (st : St) (op : Op) (hrel : RelS sp st) (hnd : (idsOf st.dts).Nodup) :
     RelS (specNext sp op (stepObs st op).2) (stepObs st op).1 := by
-  obtain ⟨h1, h2, h3, h4, h5, ⟨h6, h6p⟩, h7⟩ := hrel
+  obtain ⟨h1, h2, h3, h4, h5, h6p, h7⟩ := hrel
   have hdts : Pw V ((preDts sp op (stepObs st op).2).map (SDt.after sp.paused (stepObs st op).2)) (step st op).1.dts := by
     apply pw_chain _ _ _ _ (pw_pre sp st op h7 hnd)
       (pw_stepRM st op hnd)
@@ -755,18 +755,18 @@ theorem relS_step (sp : SpecSt) (st : St) (op : Op) (hrel : RelS sp st) (hnd : (
   rw [stepObs_fst]
   cases op with
   | add p now =>
-    refine ⟨?_, ?_, ?_, ?_, ?_, ⟨?_, ?_⟩, hdts⟩ <;> simp only [specNext, step, addOp] <;> split <;> assumption
+    refine ⟨?_, ?_, ?_, ?_, ?_, ?_, hdts⟩ <;> simp only [specNext, step, addOp] <;> split <;> assumption
   | result s te now =>
     by_cases hs : stale st te now = true
     · have hrc : (stepObs st (.result s te now)).2.rc = 0 := by simp [stepObs_rc, step, resultOp, hs]
       have hst : (step st (.result s te now)).1 = st := by simp [step, resultOp, hs]
       rw [hst] at hdts ⊢
       simp only [specNext, hrc]
-      exact ⟨h1, h2, h3, h4, h5, ⟨h6, h6p⟩, hdts⟩
+      exact ⟨h1, h2, h3, h4, h5, h6p, hdts⟩
     · have hs' : stale st te now = false := by simpa using hs
       have hrc : (stepObs st (.result s te now)).2.rc = 1 := by simp [stepObs_rc, step, resultOp, hs']
       simp only [specNext, hrc, beq_self_eq_true, if_true]
-      refine ⟨?_, ?_, ?_, ?_, ?_, ⟨?_, ?_⟩, hdts⟩
+      refine ⟨?_, ?_, ?_, ?_, ?_, ?_, hdts⟩
       · simpa [step, resultOp, hs'] using h1
       · simp [step, resultOp, hs']
       · intro _; simp [step, resultOp, hs']
@@ -775,16 +775,15 @@ theorem relS_step (sp : SpecSt) (st : St) (op : Op) (hrel : RelS sp st) (hnd : (
         cases hc : sp.checked with
         | true => simp [h3 hc]
         | false => simp [h4 hc]
-      · simpa [step, resultOp, hs'] using h6
       · simpa [step, resultOp, hs'] using h6p
-  | pump now =>
-    refine ⟨?_, ?_, ?_, ?_, ?_, ⟨?_, ?_⟩, hdts⟩ <;> simp only [specNext, step, pumpOp, h6] <;> split <;>
+  | pump now f =>
+    refine ⟨?_, ?_, ?_, ?_, ?_, ?_, hdts⟩ <;> simp only [specNext, step, pumpOp] <;> split <;>
       first | assumption | rfl
   | remove id u now =>
-    refine ⟨?_, ?_, ?_, ?_, ?_, ⟨?_, ?_⟩, hdts⟩ <;> simp only [specNext, step, removeOp] <;> split <;>
+    refine ⟨?_, ?_, ?_, ?_, ?_, ?_, hdts⟩ <;> simp only [specNext, step, removeOp] <;> split <;>
       (try split) <;> assumption
   | setPaused b now =>
-    refine ⟨?_, ?_, ?_, ?_, ?_, ⟨?_, ?_⟩, hdts⟩ <;> simp only [specNext, step, setPausedOp] <;>
+    refine ⟨?_, ?_, ?_, ?_, ?_, ?_, hdts⟩ <;> simp only [specNext, step, setPausedOp] <;>
       first | assumption | rfl
 
 /-! ### The clauses on the model's own trace -/
@@ -969,7 +968,7 @@ theorem quiet_pair (st : St) (op : Op) (hnd : (idsOf st.dts).Nodup) {d d' : Dt} 
         (opT_trivial st (.add p now))).1 d hd
   | result s te now =>
     exact key ((both_result (stepRel_RQuiet now).toAddRel.toTrigRel st s te trivial (allc_trivial _)).1 d hd)
-  | pump now => exact key ((both_pump (stepRel_RQuiet now) st (allc_trivial _)).1 d hd)
+  | pump now f => exact key ((both_pump (stepRel_RQuiet now) st f (allc_trivial _)).1 d hd)
   | remove id u now => exact key ((both_remove (stepRel_RQuiet now) st id u (allc_trivial _)).1 d hd)
 
 /-- Everything the clause proofs need to know about one downtime across the operation. -/
@@ -1188,7 +1187,7 @@ theorem chkEndOnce_model (hpe : ∀ d ∈ (step st op).1.dts, d.ends ≤ 1)
         · by_cases hl : d.trigger ≤ op.now
           · right
             have := e7 hr hr' hp hl
-            rw [quiet_pair st op hnd hd hd' r.1.1 hr hr', hqi d hd hr, ← hrel.2.2.2.2.2.1.2] at this
+            rw [quiet_pair st op hnd hd hd' r.1.1 hr hr', hqi d hd hr, ← hrel.2.2.2.2.2.1] at this
             rw [this]
             cases sp.paused <;> simp
           · left; right; rw [hst]; exact hl
@@ -1250,7 +1249,7 @@ theorem chkDropped_model : chkDropped sp op (stepObs st op).2 = true := by
     · have hs' : stale st te now = false := by simpa using hs
       simp [dropped, stepObs_rc, step, resultOp, hs']
   | add p now => simp [dropped]
-  | pump now => simp [dropped]
+  | pump now f => simp [dropped]
   | remove id u now => simp [dropped]
   | setPaused b now => simp [dropped]
 
@@ -1297,7 +1296,7 @@ theorem chkOwner_model : chkOwner sp op (stepObs st op).2 = true := by
         simp [stepObs_rc, hrc, v.2.2.2.2.2.2.1, ho']
   | add p now => rfl
   | result s te now => rfl
-  | pump now => rfl
+  | pump now f => rfl
   | setPaused b now => rfl
 
 theorem chkStartOnce_model (T : Int) (hs : SInv' T (step st op).1) : chkStartOnce sp op (stepObs st op).2 = true := by
@@ -1495,7 +1494,7 @@ theorem existence_model : existenceOK op (stepObs st op).2 sp.dts (preDts sp op 
     rw [contains_obs, findDt_unique (nodup_step st op hnd) hd']
     cases d'.removed <;> rfl
   cases op with
-  | pump now => simp only [existenceOK, hA, Bool.and_true]
+  | pump now f => simp only [existenceOK, hA, Bool.and_true]
   | result s te now =>
     simp only [existenceOK, hA, Bool.true_and]
     have := keepP RKeep (pw_keep_result st s te now hnd) (fun a b r => r.1)
@@ -1669,7 +1668,7 @@ theorem ainv_step (st : St) (op : Op) (hi : AInv st) (hnow : 0 < op.now) (hop : 
       · exact ⟨hop, by simp [newDt], by simpa [newDt, Op.now] using hnow⟩
       · simp only [Op.now] at hnow; omega
     | result s te now => exact hop.1
-    | pump now => trivial
+    | pump now f => trivial
     | remove id u now => trivial
     | setPaused b now => trivial
   constructor
@@ -1680,7 +1679,7 @@ theorem ainv_step (st : St) (op : Op) (hi : AInv st) (hnow : 0 < op.now) (hop : 
       simp only [step, resultOp]; split
       · exact hl
       · simp only; split <;> omega
-    | pump now => simp only [step, pumpOp]; split <;> exact hl
+    | pump now f => simp only [step, pumpOp]; split <;> exact hl
     | remove id u now => simp only [step, removeOp]; split <;> (try split) <;> exact hl
     | setPaused b now => exact hl
   · intro d' hd'
@@ -1693,7 +1692,7 @@ theorem ainv_step (st : St) (op : Op) (hi : AInv st) (hnow : 0 < op.now) (hop : 
           cases hp
           exact ⟨hop, by simp [newDt], by simpa [newDt, Op.now] using hnow⟩
         | result s te now => cases hp
-        | pump now => cases hp
+        | pump now f => cases hp
         | remove id u now => cases hp
         | setPaused b now => cases hp
       refine ⟨r.2.1 hb, ?_⟩
@@ -1708,7 +1707,7 @@ theorem ainv_step (st : St) (op : Op) (hi : AInv st) (hnow : 0 < op.now) (hop : 
         · have hany' : st.dts.any (fun d => d.id == p.id) = false := by simpa using hany
           exact arm_new st p now' hany' d' hd' (by rw [r.1]; rfl)
       | result s te now => cases hp
-      | pump now => cases hp
+      | pump now f => cases hp
       | remove id u now => cases hp
       | setPaused b now => cases hp
 
@@ -1718,9 +1717,9 @@ include hrel hnd
 
 theorem chkExpired_model (ha : AInv (step st op).1) : chkExpired sp op (stepObs st op).2 = true := by
   cases op with
-  | pump now =>
+  | pump now f =>
     simp only [chkExpired, isPump, Bool.not_true, Bool.false_or]
-    apply all_pw (post_pw sp st (.pump now) hrel hnd)
+    apply all_pw (post_pw sp st (.pump now f) hrel hnd)
     intro sd d' hd' v
     simp only [Bool.or_eq_true, Bool.not_eq_true']
     cases hr : d'.removed with
@@ -1790,10 +1789,10 @@ theorem qinv_step (st : St) (op : Op) (hi : QInv st) : QInv (step st op).1 := by
       | false => rfl
       | true => rw [r.2.2 h] at hr'; cases hr'
     · cases hp'
-  | pump now =>
-    have hp : (step st (.pump now)).1.paused = st.paused := by simp only [step, pumpOp]; split <;> rfl
+  | pump now f =>
+    have hp : (step st (.pump now f)).1.paused = st.paused := by simp only [step, pumpOp]; split <;> rfl
     rw [hp]
-    rcases step_pred st (.pump now) (stepRel_RQuiet now) (allc_trivial _) (opT_trivial st _)
+    rcases step_pred st (.pump now f) (stepRel_RQuiet now) (allc_trivial _) (opT_trivial st _)
       (fun _ _ h => by cases h) d' hd' with ⟨d, hd, r⟩ | ⟨p', hp', _⟩
     · rw [r.2.1]
       apply hi d hd
@@ -1825,7 +1824,7 @@ theorem qinv_pre (st : St) (op : Op) (hi : QInv st) : ∀ d ∈ preModel st op, 
       · exact hi d h hr
       · simp at h; subst h; rfl
   | result s te now => exact hi d hd hr
-  | pump now => exact hi d hd hr
+  | pump now f => exact hi d hd hr
   | remove id u now => exact hi d hd hr
   | setPaused b now => exact hi d hd hr
 
